@@ -219,8 +219,7 @@ func agreement(w *world, nodes []*node, replay func() interface{}) {
 	agreementWith(w, nodes, replay, "")
 }
 
-// agreementWith: untainted = the class of a conflict that shows the mechanism of neither the stale-entry nor the lazy-load class
-// ("" everywhere except in the scripted history A6).
+// agreementWith: untainted = the class of a conflict for which conflictClass finds no mechanism ("" everywhere).
 func agreementWith(w *world, nodes []*node, replay func() interface{}, untainted string) {
 	for i := 0; i < len(nodes); i++ {
 		for j := i + 1; j < len(nodes); j++ {
@@ -231,19 +230,7 @@ func agreementWith(w *world, nodes []*node, replay func() interface{}, untainted
 			if !a.isAncestorOf(b) && !b.isAncestorOf(a) {
 				// attributable to a known class only through that class's mechanism: one of the two blocks WAS a stale report; or the
 				// conflict's fork point lies below a LIB one of the nodes had reported before it adopted a branch through the restart gap
-				class := ""
-				if nodes[i].maxLibStale || nodes[j].maxLibStale {
-					class = classStaleEntry
-				} else {
-					f := forkNo(a, b)
-					for _, nd := range []*node{nodes[i], nodes[j]} {
-						for _, g := range nd.gaps {
-							if f < g.libBefore {
-								class = classLazyLoad
-							}
-						}
-					}
-				}
+				class := conflictClass(w, nodes, nodes[i], nodes[j], a, b)
 				if class == "" {
 					class = untainted
 				}
@@ -289,4 +276,60 @@ func (w *world) lies(b *sblk) bool {
 		}
 	}
 	return b.confirms > b.no-lpb
+}
+
+// covers: x's confirm range (no-Confirms, no] contains the number of its ancestor-or-self l.
+func covers(x, l *sblk) bool { return l.isAncestorOf(x) && x.confirms > x.no-l.no }
+
+// conflictClass: the mechanism behind "ni holds a, nj holds b, on conflicting branches", each decided by a predicate on the
+// recorded history (never by "an equivocator exists"); "" when none applies (plain failure).
+//
+//	stale entry   one of the two blocks WAS a stale report (never on its holder's main chain when reported);
+//	lazy load     the fork point lies below a LIB one of the two nodes had reported before it adopted a branch through the restart
+//	              veto gap, or a or b was removed from some correct node's main chain by such an adoption;
+//	lying         a block the holder knows, descending from its LIB and covering it, claims more than no - (its producer's
+//	              previous block among the ancestors);
+//	honest switch some CORRECT node k produced a block x that covers l (l = a or b: k confirmed l with its own block, on l's
+//	              branch) and later removed l from its main chain by a reorganisation the loaded veto allowed (root >= its LIB).
+func conflictClass(w *world, nodes []*node, ni, nj *node, a, b *sblk) string {
+	if ni.maxLibStale || nj.maxLibStale {
+		return classStaleEntry
+	}
+	f := forkNo(a, b)
+	for _, nd := range []*node{ni, nj} {
+		for _, g := range nd.gaps {
+			if f < g.libBefore {
+				return classLazyLoad
+			}
+		}
+	}
+	for _, k := range nodes {
+		if k.replacedByGap(a) || k.replacedByGap(b) {
+			return classLazyLoad
+		}
+	}
+	for _, h := range []struct {
+		nd *node
+		l  *sblk
+	}{{ni, a}, {nj, b}} {
+		for _, x := range w.blocks {
+			if h.nd.known[x] && covers(x, h.l) && w.lies(x) {
+				return classLyingConfirms
+			}
+		}
+	}
+	for _, l := range []*sblk{a, b} {
+		for _, k := range nodes {
+			if k.fault || k.idx < 0 || !k.abandoned[l] {
+				continue
+			}
+			for _, x := range w.blocks {
+				if x.bp == k.idx && covers(x, l) {
+					w.run.Count("agreement honest-switch witness")
+					return classHonestSwitch
+				}
+			}
+		}
+	}
+	return ""
 }
